@@ -147,6 +147,21 @@ theorem filter_insertCal (x : CalItem) (t : Int) (l : List CalItem) :
       · simp [hx, List.filter_cons]
 
 
+theorem mem_of_lookup_eq_some {α β} [BEq α] [LawfulBEq α] (l : List (α × β)) (a : α) (b : β)
+    (h : l.lookup a = some b) : (a, b) ∈ l := by
+  induction l with
+  | nil => simp [List.lookup] at h
+  | cons x xs ih =>
+    obtain ⟨k, v⟩ := x
+    by_cases hk : a = k
+    · subst hk
+      simp [List.lookup] at h
+      subst h
+      exact List.mem_cons_self
+    · have : (a == k) = false := by simpa using hk
+      simp only [List.lookup, this] at h
+      exact List.mem_cons_of_mem _ (ih h)
+
 theorem lookup_of_mem_nodup {α β} [BEq α] [LawfulBEq α] (l : List (α × β)) (h : (l.map (·.1)).Nodup) (a : α) (b : β)
     (hm : (a, b) ∈ l) : l.lookup a = some b := by
   induction l with
